@@ -139,6 +139,8 @@ def r15(ck, prog):
             ok_all = bool(loops) and "numseq" in (loops[0].child("cond").text() if loops[0].child("cond") else "")
             ck.inst("R15b", where, "sums GCGchecksum(%s, %s) over %s" % (c.args[0].text(), c.args[1].text(),
                                                                          loops[0].child("cond").text() if loops else "?"), prog.config)
+            if ok_len and ok_row and not loops:
+                raise AnalysisBroken("R15b: GCGMultchecksum does not use a counted for-loop; coverage of all numseq rows is not decided")
             if not (ok_len and ok_row and ok_all):
                 ck.violation("R15b", "R15b/GCGMultchecksum/shape", where,
                              "GCGMultchecksum does not sum the row checksums of all numseq rows over the length it is given", prog.config)
